@@ -13,8 +13,9 @@ EXPLANATION = ("speriodogram, Periodogram and CORRELOGRAMPSD (through the real W
                "written independently in the harness, Parseval for complex data and Wiener-Khinchin for the correlogram.")
 BOUNDS = {
     "quick": "N in 1..4, NFFT in {N..8} (subset incl. odd/prime 5,7 and powers of two), real and complex, 1-D; 2-D (N x 2) for N=2,3; "
-             "windows: rectangular, hann + 4 chosen by VERIF_SEED; function and class form; Wiener-Khinchin N in 2..3, NFFT in {2N-1, 8}",
-    "thorough": "N in 1..4, every NFFT in N..8, plus (N,NFFT) in {(5,5),(5,6),(5,8),(5,12),(6,6),(6,8),(6,12),(4,9),(4,10),(4,12)}, all 29 window names, 1-D and 2-D; Wiener-Khinchin N in 2..4, NFFT in 2N-1..8",
+             "windows: rectangular, hann + 4 chosen by VERIF_SEED; function and class form; Wiener-Khinchin N in 2..3, NFFT in {2N-1, 8}; "
+             "integer-dtype data (int64 array / list of ints, Int-sorted symbols) at (N,NFFT,window) in {(3,4,hamming),(4,4,hann),(4,5,hamming)}",
+    "thorough": "N in 1..4, every NFFT in N..8, plus (N,NFFT) in {(5,5),(5,6),(5,8),(5,12),(6,6),(6,8),(6,12),(4,9),(4,10),(4,12)}, all 29 window names, 1-D and 2-D; Wiener-Khinchin N in 2..4, NFFT in 2N-1..8; integer-dtype data on 6 more (N,NFFT) pairs x 6 windows",
 }
 ASSUMPTIONS = ["floats modelled as exact reals", "numpy.fft.(r)fft = DFT definition (stub with exact twiddles)",
                "window samples enter as the exact rational value of the floats the real window code returns",
@@ -81,6 +82,29 @@ def case_periodogram(h, N, n, cplx, window, form):
         for m in range(N):
             e = e + abs2(x[m] * float(w[m]))
         h.claim_eq("parseval", tot / n, e / N)
+
+
+def case_periodogram_int(h, N, n, window, form, as_list):
+    """integer-valued input (numpy int64 array or a list of Python ints): same definition, no truncation anywhere"""
+    S = sp()
+    w = window_values(N, window)
+    if w is None:
+        return
+    xi = h.int_vec('x', N)
+    x = xi
+    if as_list and not h.is_sym():
+        x = [int(v) for v in xi]
+    if form == 'function':
+        psd = S.speriodogram(x, NFFT=n, detrend=False, sampling=1., scale_by_freq=False, window=window)
+    else:
+        psd = S.Periodogram(x, sampling=1., window=window, NFFT=n, scale_by_freq=False, detrend=None).psd
+    K = nbins(n, False)
+    if len(psd) != K:
+        h.fail("len", "len(psd)=%d expected %d" % (len(psd), K))
+        return
+    for k in range(K):
+        X = dft_bin(h, xi, w, n, k)
+        h.claim_eq("bin%d" % k, psd[k], abs2(X) / N)
 
 
 def case_periodogram_2d(h, N, n, cplx, window):
@@ -150,6 +174,15 @@ def cases(tier, seed):
                 for method in ('CORRELATION', 'xcorr'):
                     out.append(Case("wiener-khinchin:%s:%s:N=%d:NFFT=%d" % (method, 'cx' if cplx else 're', N, n),
                                     case_wiener_khinchin, dict(N=N, n=n, cplx=cplx, method=method), timeout=120 if q else 600))
+    igrid = [(3, 4, 'hamming'), (4, 4, 'hann'), (4, 5, 'hamming')]
+    if not q:
+        igrid += [(N, n, wn) for (N, n) in ((2, 2), (3, 3), (3, 5), (4, 6), (5, 5), (5, 8)) for wn in ('rectangular', 'hamming', 'hann', 'tukey', 'flattop', 'bartlett')]
+    for (N, n, wname) in igrid:
+        for form in ('function', 'class'):
+            for as_list in (False, True):
+                out.append(Case("periodogram-int:%s:%s:N=%d:NFFT=%d:%s" % (form, 'list' if as_list else 'int64', N, n, wname),
+                                case_periodogram_int, dict(N=N, n=n, window=wname, form=form, as_list=as_list),
+                                timeout=60 if q else 300))
     from .common import reuse_cases, Call
     out += reuse_cases([("speriodogram", Call('speriodogram', NFFT=4, detrend=False, scale_by_freq=False), 3, True),
                         ("speriodogram", Call('speriodogram', NFFT=4, detrend=True, scale_by_freq=False), 3, False)], q)
